@@ -44,7 +44,11 @@ func GetJsonDataType(t dsl.Type) JsonDataType {
 		panic("unexpected union type")
 	}
 
-	scalarType := gt.Cases[0].Type.(*dsl.SimpleType)
+	scalarType, ok := gt.Cases[0].Type.(*dsl.SimpleType)
+	if !ok {
+		// a type written as a one-element sequence, e.g. `[int*]`: its JSON kind is that of the element
+		return GetJsonDataType(gt.Cases[0].Type)
+	}
 	switch td := scalarType.ResolvedDefinition.(type) {
 	case dsl.PrimitiveDefinition:
 		switch td {
